@@ -471,6 +471,7 @@ func btreeEngine() {
 			break
 		}
 	}
+	inFlight("btree", nil)
 	rep.Distinct = rep.Distribution["tx-on-branch-tree"] + rep.Distribution["tx-with-rebalance"]
 	rep.finish(start)
 }
